@@ -949,11 +949,33 @@ fn damage(w: &W, fmt: Fmt) -> Verdict {
     let mut fields: Vec<Vec<u8>> = body.split(|b| *b == b'\t').map(|f| f.to_vec()).collect();
     let nf = fields.len();
     let kind = match fmt {
-        Fmt::Bed => w.draw(if j > 0 { 4 } else { 2 }),
+        // BED: 0,1 bad number; 2,3 column count (lines other than the first only); 9 = the line is
+        // cut down to one or two columns, which is malformed on ANY line (BED has at least three)
+        Fmt::Bed => {
+            if w.chance(1, 6) {
+                9
+            } else {
+                w.draw(if j > 0 { 4 } else { 2 })
+            }
+        }
         Fmt::Gff(_) => w.draw(5),
     };
+    let mut judge_only_damaged_line = false;
     let what: String;
     match (fmt, kind) {
+        (Fmt::Bed, 9) => {
+            let mut keep = 1 + w.draw(2) as usize;
+            if keep == 1 && fields[0].is_empty() {
+                // an empty chrom alone would leave a blank line, which is not a record at all
+                keep = 2;
+            }
+            fields.truncate(keep);
+            what = format!("line {}: cut down to {} column(s)", j, keep);
+            w.probe("damage_bed_fewer_than_three_columns");
+            // on the first line this also redefines the column count of the file (inherent to
+            // BED), so only the damaged line itself is judged then
+            judge_only_damaged_line = j == 0;
+        }
         (Fmt::Bed, 0) | (Fmt::Bed, 1) => {
             let col = 1 + kind as usize;
             let bad = *w.pick(&BAD_NUMBERS);
@@ -1051,6 +1073,9 @@ fn damage(w: &W, fmt: Fmt) -> Verdict {
             }
             Ok(())
         } else {
+            if judge_only_damaged_line {
+                return Ok(());
+            }
             if !is_ok {
                 return fail("C13.e-malformed", format!("{}; but the undamaged line {} was reported as an error: {}", what, idx, err_text));
             }
@@ -1335,7 +1360,7 @@ pub fn property() -> Property {
         ],
         expected_probes: &[
             "multi_valued_attribute", "key_order_differs_from_insertion", "quoted_csv_field", "csv_field_or_line_split_across_reads",
-            "damage_bad_number", "damage_bad_phase", "damage_phase_in_u8_range", "damage_column_missing", "damage_column_added", "eintr_surfaced_by_reader", "many_records_regime", "all_partitions_sweep", "first_column_starts_with_hash", "field_with_tab_or_line_feed", "many_values_record", "damaged_line_follows_comment", "damaged_last_line_without_newline",
+            "damage_bad_number", "damage_bad_phase", "damage_phase_in_u8_range", "damage_column_missing", "damage_column_added", "damage_bed_fewer_than_three_columns", "eintr_surfaced_by_reader", "many_records_regime", "all_partitions_sweep", "first_column_starts_with_hash", "field_with_tab_or_line_feed", "many_values_record", "damaged_line_follows_comment", "damaged_last_line_without_newline",
         ],
         quick_runs: 300_000,
         thorough_runs: 20_000_000,
